@@ -537,7 +537,7 @@ def run(tier, seed):
     ev = {nme: 0 for nme in NAMES}
     viol = {nme: [] for nme in NAMES}
     distinct = {nme: set() for nme in NAMES}
-    stats = {"balanced": 0, "coefficient": 0, "one_key": 0, "charge_only": 0, "later_reaction": 0}
+    stats = {"balanced": 0, "coefficient": 0, "one_key": 0, "charge_only": 0}
     samples = []
     for i, case, r in results:
         kb = json.dumps(case["base"], sort_keys=True)
